@@ -64,10 +64,17 @@ def addProvided {P} (O : Oracles P) : List Event → IdMap → P → IdMap × P
     if e.stateKey.isSome then addProvided O es ((e.eventID, some e) :: m) (O.add acc e)
     else addProvided O es ((e.eventID, none) :: m) acc
 
+/-- `if _, got := eventsByID[ae]; !got { eventsByID[ae] = nil }`: after the provider's events were added,
+    the requested ID is recorded as missing unless one of them carried it -/
+def ensureKey (ae : Bytes) (m : IdMap) : IdMap :=
+  match m.lookup ae with
+  | none => (ae, none) :: m
+  | some _ => m
+
 inductive Step (P : Type) where
   | next (m : IdMap) (acc : P) (log : Log)
   | fail (m : IdMap) (log : Log)          -- AddEvent refused an event found in eventsByID (no state key)
-  | outOfFuel (m : IdMap) (log : Log)     -- the `goto retryEvent` loop did not finish within the fuel
+  | outOfFuel (m : IdMap) (log : Log)     -- the `goto retryEvent` loop did not finish within the fuel (unreachable with fuel ≥ 2: C14.retry_terminates)
 
 /-- one auth event ID of the `for _, ae := range event.AuthEventIDs()` loop, including the
     `retryEvent:` label.  Each `goto retryEvent` consumes one unit of fuel. -/
@@ -84,7 +91,7 @@ def retryAE {P} (O : Oracles P) (prov : Option EventProvider) (ae : Bytes) :
       | some p =>
         match p [ae] with
         | .events (e :: es) =>
-          retryAE O prov ae fuel (addProvided O (e :: es) m acc).1 (addProvided O (e :: es) m acc).2 (log ++ [.events [ae]])
+          retryAE O prov ae fuel (ensureKey ae (addProvided O (e :: es) m acc).1) (addProvided O (e :: es) m acc).2 (log ++ [.events [ae]])
         | _ => retryAE O prov ae fuel ((ae, none) :: m) acc (log ++ [.events [ae]])
 
 def loopAE {P} (O : Oracles P) (prov : Option EventProvider) (fuel : Nat) :
